@@ -36,9 +36,9 @@ func (prop) Budget(tier string) int {
 func (prop) Describe() kernel.Description {
 	return kernel.Description{
 		Rule: "one run = one scripted underlying stream (content 0..10000 bytes, chunk plan, zero-length reads, data+EOF, " +
-			"injected error at a chosen offset or clean EOF, or nil body) × Content-Length declared positive/zero/absent × a tape-drawn " +
-			"history (≤12) of HasBody / Read(buffer 0,1,small,huge) / Close, checked step by step against a reference model " +
-			"(remaining bytes + sticky terminal + closed flag). thorough adds the sweep: ~20 stream shapes × every error offset × " +
+			"injected error at a chosen offset (sticky, or reported once and io.EOF afterwards) or clean EOF, or nil body) × Content-Length declared positive/zero/absent × a tape-drawn " +
+			"history (≤12) of HasBody / Read(buffer 0,1,small,huge) / io.Copy / Close, checked step by step against a reference model " +
+			"(remaining bytes + terminal condition + closed flag). thorough adds the sweep: ~20 stream shapes × every error offset × " +
 			"every position of a HasBody probe in a fixed read/close script. distinct = distinct history signature (hash of every " +
 			"stream operation and result); non-trivial = at least one fault kind fired (short read, zero-length read, data+EOF, read error, nil body).",
 		Real:  []string{"runtime.HasBody", "runtime.peekingReader (Read/Close/HasContent)", "bufio.Reader"},
@@ -46,7 +46,7 @@ func (prop) Describe() kernel.Description {
 		Assumptions: []string{
 			"with a positive declared length HasBody does not wrap the body, so closes are forwarded one-to-one and are not counted against the wrapper",
 			"a Close issued before the first wrapping probe is the caller's own",
-			"a zero-length Read after Close may return (0,nil); only data, or success for a non-empty buffer, is a failure",
+			"a zero-length Read after Close may return (0,nil); data, success for a non-empty buffer, or a clean io.EOF for a non-empty buffer (which io.ReadAll reports as success) are failures",
 			"HasBody after Close must answer false (nothing can be read any more)",
 			"zero-length reads of the underlying stream are bounded (≤3 per stream) so bufio's 100-empty-reads guard is never the subject",
 		},
